@@ -10,6 +10,7 @@ import (
 	"sort"
 	"strconv"
 	"strings"
+	"verif/internal/b1"
 
 	"verif/internal/core"
 	"verif/internal/genexec"
@@ -525,8 +526,57 @@ func C07(c *core.Ctx) {
 		replayUnsupported(c)
 	}
 	gxCommon(c, "GenExecTraceC07.cfg", "C07", false, hasFaults)
+	c07Hooks(c)
 	c.Set("exhaustive", false)
-	c.Set("rule", "the programs of C02 with every subset (up to 32) of their error-capable call sites (converters with error at top level and on a nested path, error-returning getter, pre/post hooks with error) armed to fail; TLC accepts a trace only if no call follows a failed one and the returned error is the failing site's sentinel (nil if none failed). Non-trivial: runs with at least one armed failure")
+	c.Set("rule", "the programs of C02 with every subset (up to 32) of their error-capable call sites (converters with error at top level and on a nested path, error-returning getter, pre/post hooks with error) armed to fail; TLC accepts a trace only if no call follows a failed one and the returned error is the failing site's sentinel (nil if none failed); plus, statically, every hook shape of Hooks.tla that can return an error (error result, (T, error) results): refused when the method or the shape gives the error nowhere to go, otherwise called with `err =` and an immediate check. Non-trivial: runs with at least one armed failure")
+}
+
+// c07Hooks: the hook shapes of Hooks.tla that can return an error. Whether the error of an accepted hook
+// is returned at run time is decided by trace validation above; here: a shape whose error has nowhere to go
+// must be refused, and every accepted one must receive and check the error.
+func c07Hooks(c *core.Ctx) {
+	var cases []*b1.Case
+	for i, h := range hookEnumerate(c) {
+		if h.Cfg.Kind == "twoResults" || ((h.Cfg.Kind == "ok" || h.Cfg.Kind == "imported") && h.Cfg.HErr) {
+			cases = append(cases, hookConcretise(i, h))
+		}
+	}
+	if len(cases) < 50 {
+		core.Machinery("C07: only %d error-capable hook shapes", len(cases))
+	}
+	st := b1.Run(c, b1.Options{Name: "hooks07", PerFile: 40, Family: "hooks"}, cases, func(r *b1.Result) b1.Verdict {
+		h := r.Case.Data.(*hookCase)
+		v := b1.Verdict{Nontrivial: "hook|" + fmt.Sprint(h.Cfg)}
+		switch {
+		case r.TimedOut || r.Crashed:
+			v.What = fmt.Sprintf("%s: the tool crashed or hung: %s", hookDescribe(h), firstLine(r.Stderr))
+		case r.Exit != 0:
+			v.OK = true // refused: nothing can be swallowed
+		case h.Fit.Reject:
+			v.What = fmt.Sprintf("%s: the hook can return an error that the generated function cannot pass on, but it was accepted", hookDescribe(h))
+		case r.Fn == nil:
+			v.What = fmt.Sprintf("%s: no function %s in the output %s", hookDescribe(h), r.Case.Func, r.ParseErr)
+		default:
+			v.OK = true
+			n := 0
+			for _, s := range r.Fn.Body {
+				if s.Kind != "hook" {
+					continue
+				}
+				n++
+				if !s.Err || !s.ErrChecked {
+					v.OK = false
+					v.What = fmt.Sprintf("%s: the hook returns an error, but the call `%s(%s)` does not receive and check it", hookDescribe(h), s.Call, strings.Join(s.Args, ", "))
+				}
+			}
+			if n == 0 {
+				v.OK = false
+				v.What = fmt.Sprintf("%s: the accepted hook is never called", hookDescribe(h))
+			}
+		}
+		return v
+	})
+	c.Set("error_capable_hook_shapes", st.Cases)
 }
 
 // gxSelftest demonstrates the binding: the recorded trace is accepted, and it
